@@ -121,3 +121,81 @@ pub fn rbytes(rng: &mut Rng, max: usize) -> Vec<u8> {
     let n = if max == 0 { 0 } else { rng.usize(max) };
     rng.bytes(n)
 }
+
+// ------------------------------------------------------------------------------------------------
+// Watchdog: a call into the code under test that does not return must not hang the check.
+// Expiry is *inconclusive* (exit 2), never a violation.
+// ------------------------------------------------------------------------------------------------
+use std::sync::{
+    Arc,
+    atomic::{AtomicBool, AtomicU64, AtomicUsize, Ordering},
+};
+
+pub struct Dog {
+    slots: Vec<AtomicU64>,
+    what: std::sync::Mutex<Vec<String>>,
+    t0: std::time::Instant,
+    done: AtomicBool,
+    next_slot: AtomicUsize,
+}
+thread_local! { static SLOT: std::cell::Cell<usize> = const { std::cell::Cell::new(usize::MAX) }; }
+
+impl Dog {
+    /// `limit_s`: a single case may run this long (wall clock) before the run is abandoned.
+    /// On expiry the check's evidence/violations collected so far are still written (`finish`), the
+    /// process exits 1 if real violations were already observed, else 2 (inconclusive).
+    pub fn start(check: &'static vmon::Check, limit_s: u64) -> Arc<Dog> {
+        let check_id: &str = &check.id;
+        let d = Arc::new(Dog {
+            slots: (0..256).map(|_| AtomicU64::new(0)).collect(),
+            what: std::sync::Mutex::new(vec![String::new(); 256]),
+            t0: std::time::Instant::now(),
+            done: AtomicBool::new(false),
+            next_slot: AtomicUsize::new(0),
+        });
+        let dd = d.clone();
+        let id = check_id.to_string();
+        std::thread::spawn(move || {
+            loop {
+                std::thread::sleep(std::time::Duration::from_millis(500));
+                if dd.done.load(Ordering::Relaxed) {
+                    return;
+                }
+                let now = dd.t0.elapsed().as_millis() as u64 + 1;
+                for (i, s) in dd.slots.iter().enumerate() {
+                    let st = s.load(Ordering::Relaxed);
+                    if st != 0 && now.saturating_sub(st) > limit_s * 1000 {
+                        let w = dd.what.lock().map(|g| g[i].clone()).unwrap_or_default();
+                        check.inconclusive(format!("watchdog: one case has been inside the code under test for more than {limit_s} s (call does not return); case: {w}"));
+                        check.note("watchdog_fired", vmon::json!(true));
+                        let code = check.finish();
+                        println!("INCONCLUSIVE property={id} reasons=[\"watchdog: a call into the code under test did not return within {limit_s} s\"]");
+                        std::process::exit(if code == vmon::EXIT_VIOLATION { code } else { vmon::EXIT_INCONCLUSIVE });
+                    }
+                }
+            }
+        });
+        d
+    }
+    fn slot(&self) -> usize {
+        SLOT.with(|s| {
+            if s.get() == usize::MAX {
+                s.set(self.next_slot.fetch_add(1, Ordering::Relaxed) % self.slots.len());
+            }
+            s.get()
+        })
+    }
+    pub fn enter(&self, what: impl FnOnce() -> String) {
+        let i = self.slot();
+        if let Ok(mut g) = self.what.lock() {
+            g[i] = what();
+        }
+        self.slots[i].store(self.t0.elapsed().as_millis() as u64 + 1, Ordering::Relaxed);
+    }
+    pub fn leave(&self) {
+        self.slots[self.slot()].store(0, Ordering::Relaxed);
+    }
+    pub fn stop(&self) {
+        self.done.store(true, Ordering::Relaxed);
+    }
+}
